@@ -157,6 +157,29 @@ fn abs(rel: &str) -> Vec<u8> {
     }
 }
 
+/// Is the directory that holds the last component of `rel` (as the kernel would resolve it now,
+/// links followed) inside the world area? A parent that cannot be opened is left to the mutation's
+/// own system call to report.
+fn parent_in_world(rel: &str) -> bool {
+    let parent = match rel.rfind('/') {
+        Some(i) => &rel[..i],
+        None => "",
+    };
+    let fd = match sys::open(&abs(parent), libc::O_PATH | libc::O_DIRECTORY, 0) {
+        Ok(fd) => fd,
+        Err(_) => return true,
+    };
+    let p = sys::fd_path(fd);
+    sys::close(fd);
+    if p.is_empty() {
+        // the path text could not be rendered (longer than a page): such parents are built by the
+        // harness's own deep-path phases inside the world area
+        return true;
+    }
+    let top = TOP.as_bytes();
+    p == top || (p.starts_with(top) && p.get(top.len()) == Some(&b'/'))
+}
+
 pub fn zone_of_path(rel: &str) -> Zone {
     if rel == "root" || rel.starts_with("root/") {
         Zone::Inside
@@ -584,6 +607,36 @@ impl World {
     /// zone of the directory it is created in; anything moved from outside to
     /// a place under the root becomes inside (with its subtree).
     pub fn apply(&mut self, m: &Mutation) -> Result<bool, i32> {
+        // The attacker lives in the world area. Its paths are lexical, but the tree they are applied
+        // to is not symlink-free: the library under test (rename/exchange) and earlier mutations can
+        // put a link with an absolute body (the race world's "/../../etc") where a later mutation
+        // expects a directory, and the kernel would then carry the mutation out on the *host*. A
+        // mutation whose parent directory is not in the world area is refused (it does not take effect).
+        {
+            let named: Vec<&str> = match m {
+                Mutation::Rename { src, dst } => vec![src, dst],
+                Mutation::Exchange { a, b } => vec![a, b],
+                Mutation::Unlink { path } | Mutation::Rmdir { path } | Mutation::Mkdir { path } | Mutation::Chmod { path, .. } => vec![path],
+                Mutation::MkFile { path, .. } | Mutation::Symlink { path, .. } => vec![path],
+                Mutation::SwapInSymlink { path, park, .. } => vec![path, park],
+                _ => vec![],
+            };
+            for rel in named {
+                if !rel.starts_with('/') && !parent_in_world(rel) {
+                    return Err(libc::EXDEV);
+                }
+            }
+            if let Mutation::Chmod { path, .. } = m {
+                // fchmodat follows a trailing link
+                if !path.starts_with('/') {
+                    if let Ok(st) = sys::lstat(&abs(path)) {
+                        if st.st_mode & libc::S_IFMT == libc::S_IFLNK {
+                            return Err(libc::ELOOP);
+                        }
+                    }
+                }
+            }
+        }
         match m {
             Mutation::Rename { src, dst } => {
                 // where the destination really is, and whether that is under the root,
